@@ -43,6 +43,7 @@ import (
 	"testing/synctest"
 	"time"
 
+	"github.com/DistCompiler/pgo/distsys/resources"
 	"verif/mc/explore"
 	"verif/mc/hres"
 )
@@ -506,6 +507,13 @@ func configs(thorough bool) []Cfg {
 			shape{"rmw+rmw|blind|rmw|-", 2, 1, false, "sync", ""},
 		)
 	}
+	// Opt-in (VERIF_C11_SPLIT=1): the replica's two critical sections per request as two scheduler steps.  On
+	// the current tree this reports two-winners/direct-split and release/no-abort-after-accept/direct-split
+	// (candidate finding: the stale-message filter and receiveInternal are not one critical section; witnesses
+	// in replays/C11/candidate-x-*.json).  Not part of the tiers until the coordinator decides how to record it.
+	if os.Getenv("VERIF_C11_SPLIT") != "" && splitReceiveSourceOK() {
+		shapes = append(shapes, shape{"rmw|rmw|-", 2, 1, true, "direct", "lazy,split,sibling"})
+	}
 	var out []Cfg
 	for _, sh := range shapes {
 		for _, tr := range []string{"local", "direct", "gob", "sync"} {
@@ -521,6 +529,10 @@ func configs(thorough bool) []Cfg {
 					c.Sym = true
 				case "lazy":
 					c.LazyTimers = true
+				case "split":
+					c.SplitReceive = true
+				case "sibling":
+					c.Faults = []string{"sibling-abort"}
 				case "drops":
 					if sh.budget > 0 {
 						c.Faults = []string{"drop-req", "sibling-abort"}
@@ -536,6 +548,36 @@ func configs(thorough bool) []Cfg {
 		}
 	}
 	return out
+}
+
+// splitReceiveSourceOK tells whether receiveFiltered still reads as the text VerifTwoPCFilterHalf was
+// transcribed from.
+func splitReceiveSourceOK() bool {
+	repo := os.Getenv("VERIF_REPO")
+	if repo == "" {
+		repo = "/repo"
+	}
+	b, err := os.ReadFile(filepath.Join(repo, "distsys", "resources", "twopc.go"))
+	if err != nil {
+		return false
+	}
+	src := string(b)
+	a := strings.Index(src, "func (twopc *TwoPCArchetypeResource) receiveFiltered(")
+	if a < 0 {
+		return false
+	}
+	e := strings.Index(src[a:], "\n}\n")
+	if e < 0 {
+		return false
+	}
+	var sb strings.Builder
+	for _, l := range strings.Split(src[a:a+e+2], "\n") {
+		if i := strings.Index(l, "//"); i >= 0 {
+			l = l[:i]
+		}
+		sb.WriteString(strings.Join(strings.Fields(l), ""))
+	}
+	return sb.String() == resources.VerifTwoPCFilterHalfSource
 }
 
 func weight(c *Cfg) int {
